@@ -247,10 +247,6 @@ Qed.
 (* sep_bracket, decomposed                                             *)
 (* ------------------------------------------------------------------ *)
 
-Definition bracket_guard (name : str) : bool :=
-  negb (N.eqb (hd 0 name) c_bsl) ||
-  (Nat.eqb (length (split_on c_space name)) 2 && negb (is_empty (nth 1 (split_on c_space name) []))).
-
 Definition bracket_core (name : str) : option (option N * str) :=
   match rev (split_on c_lbr name) with
   | last :: _ :: _ =>
@@ -267,9 +263,8 @@ Definition bracket_core (name : str) : option (option N * str) :=
   | _ => Some (None, name)
   end.
 
-Lemma sep_bracket_alt name : name <> [] ->
-  sep_bracket name = if bracket_guard name then bracket_core name else Some (None, name).
-Proof. destruct name; [contradiction|reflexivity]. Qed.
+Lemma sep_bracket_alt name : sep_bracket name = bracket_core name.
+Proof. reflexivity. Qed.
 
 Lemma bit_suffix_no c i : is_digit c = false -> c <> c_rbr -> ~ In c (dec i ++ [c_rbr]).
 Proof.
@@ -289,66 +284,29 @@ Proof.
   cbn [andb]. rewrite (before_last_app _ _ _ Hb), int_of_dec. reflexivity.
 Qed.
 
-(* the guard on the bit name: only the number of spaces in the cable name matters *)
-Lemma bracket_guard_bit name i :
-  bracket_guard (bit_name name i) =
-  negb (N.eqb (hd c_lbr name) c_bsl) || Nat.eqb (length (split_on c_space name)) 2.
-Proof.
-  unfold bracket_guard. f_equal.
-  - destruct name; reflexivity.
-  - unfold bit_name.
-    assert (Hb : ~ In c_space (c_lbr :: dec i ++ [c_rbr])).
-    { intros [E|Hin]; [discriminate|]. revert Hin. apply bit_suffix_no; [reflexivity|discriminate]. }
-    destruct (split_on_suffix _ _ Hb name) as (init & l & E1 & E2). rewrite E1, E2.
-    rewrite !app_length. cbn [length].
-    destruct init as [|h [|h2 t]].
-    + reflexivity.
-    + destruct l; reflexivity.
-    + cbn [app length]. rewrite Nat.add_comm. reflexivity.
-Qed.
-
-(* complete description of the reader on the writer's bit names *)
+(* complete description of the reader on the writer's bit names: ALWAYS recognised (repaired K9: names
+   starting with a backslash used to be recognised only when they contained exactly one space) *)
 Theorem bitname_bracket_full : forall (name : str) (i : N),
-  sep_bracket (bit_name name i) =
-  if negb (N.eqb (hd c_lbr name) c_bsl) || Nat.eqb (length (split_on c_space name)) 2
-  then Some (Some i, name) else Some (None, bit_name name i).
-Proof.
-  intros name i. rewrite sep_bracket_alt by apply bit_name_nonempty.
-  rewrite bracket_guard_bit, bracket_core_bit. reflexivity.
-Qed.
+  sep_bracket (bit_name name i) = Some (Some i, name).
+Proof. intros name i. rewrite sep_bracket_alt. apply bracket_core_bit. Qed.
 
 (* 3 *)
 Theorem bitname_inverse_bracket : forall (name : str) (i : N),
-  (match name with c :: _ => c <> c_bsl | [] => True end) ->
   sep_bracket (bit_name name i) = Some (Some i, name).
+Proof. exact bitname_bracket_full. Qed.
+
+(* never an error *)
+Theorem sep_bracket_total : forall name : str, sep_bracket name <> None.
 Proof.
-  intros name i H. rewrite bitname_bracket_full.
-  destruct name as [|c r]; [reflexivity|].
-  cbn [hd]. apply N.eqb_neq in H. rewrite H. reflexivity.
+  intro name. unfold sep_bracket. destruct (rev (split_on c_lbr name)) as [|l [|x r]]; try discriminate.
+  destruct (rev l) as [|e b]; [discriminate|]. destruct (_ && _); [|discriminate].
+  destruct (before_last c_lbr name); discriminate.
 Qed.
 
-(* names that start with a backslash: recognised iff the name contains exactly one space
-   (the second " "-part of  name[i]  ends in "[i]" and so is never empty) *)
-Theorem bitname_inverse_bracket_escaped : forall (rest : str) (i : N),
-  sep_bracket (bit_name (c_bsl :: rest) i) =
-  if Nat.eqb (count_occ N.eq_dec (c_bsl :: rest) c_space) 1
-  then Some (Some i, c_bsl :: rest) else Some (None, bit_name (c_bsl :: rest) i).
+Theorem net_bit_total : forall ident name : str, net_bit ident name <> None.
 Proof.
-  intros rest i. rewrite bitname_bracket_full, length_split_on. reflexivity.
-Qed.
-
-Corollary bitname_inverse_bracket_escaped_ok : forall (rest : str) (i : N),
-  length (split_on c_space (c_bsl :: rest)) = 2%nat ->
-  sep_bracket (bit_name (c_bsl :: rest) i) = Some (Some i, c_bsl :: rest).
-Proof.
-  intros rest i H. rewrite bitname_bracket_full, H. reflexivity.
-Qed.
-
-Corollary bitname_bracket_escaped_lost : forall (rest : str) (i : N),
-  length (split_on c_space (c_bsl :: rest)) <> 2%nat ->
-  sep_bracket (bit_name (c_bsl :: rest) i) = Some (None, bit_name (c_bsl :: rest) i).
-Proof.
-  intros rest i H. rewrite bitname_bracket_full. apply Nat.eqb_neq in H. rewrite H. reflexivity.
+  intros ident name. unfold net_bit. destruct (sep_underscore ident) as [ei es].
+  destruct (sep_bracket name) as [[ni ns]|] eqn:E; [discriminate|]. exfalso. exact (sep_bracket_total name E).
 Qed.
 
 (* ------------------------------------------------------------------ *)
@@ -400,11 +358,10 @@ Proof. vm_compute. split; reflexivity. Qed.
 
 (* 5 *)
 Theorem bitname_inverse : forall (ident name : str) (i : N),
-  (match name with c :: _ => c <> c_bsl | [] => True end) ->
   net_bit (bit_ident ident i) (bit_name name i) = Some (Some i, name, ident).
 Proof.
-  intros ident name i H2. unfold net_bit.
-  rewrite (bitname_inverse_underscore _ _), (bitname_inverse_bracket _ _ H2). reflexivity.
+  intros ident name i. unfold net_bit.
+  rewrite (bitname_inverse_underscore _ _), (bitname_inverse_bracket _ _). reflexivity.
 Qed.
 
 (* ------------------------------------------------------------------ *)
@@ -416,8 +373,7 @@ Theorem scalar_name_not_bit_last : forall (name : str),
   name <> [] -> last name 0 <> c_rbr -> last name 0 <> c_lbr ->
   sep_bracket name = Some (None, name).
 Proof.
-  intros name Hne Hr Hl. rewrite sep_bracket_alt by exact Hne.
-  destruct (bracket_guard name); [|reflexivity]. unfold bracket_core.
+  intros name Hne Hr Hl. rewrite sep_bracket_alt. unfold bracket_core.
   destruct (last_occ c_lbr name) as [H|(p & l & E & Hn)].
   - rewrite split_on_nosep by exact H. reflexivity.
   - subst name. rewrite (rev_split_app _ _ _ Hn).
@@ -433,8 +389,7 @@ Qed.
 Theorem scalar_name_lbr_not_bit : forall (p : str),
   sep_bracket (p ++ [c_lbr]) = Some (None, p ++ [c_lbr]).
 Proof.
-  intros p. rewrite sep_bracket_alt by (intro E; apply app_eq_nil in E; destruct E; discriminate).
-  destruct (bracket_guard (p ++ [c_lbr])); [|reflexivity].
+  intros p. rewrite sep_bracket_alt.
   unfold bracket_core. rewrite (rev_split_app c_lbr p []) by (intros []).
   destruct (rev (split_on c_lbr p)); reflexivity.
 Qed.
@@ -460,10 +415,10 @@ Qed.
 Example bitname_examples :
   sep_bracket (s2l "a[b][12]") = Some (Some 12, s2l "a[b]") /\
   sep_bracket (s2l "a[") = Some (None, s2l "a[") /\
-  sep_bracket (s2l "") = None /\
+  sep_bracket (s2l "") = Some (None, s2l "") /\
   sep_bracket (s2l "a[]") = Some (None, s2l "a[]") /\
   sep_bracket (s2l "[3]") = Some (Some 3, s2l "") /\
-  sep_bracket (s2l "\a[3]") = Some (None, s2l "\a[3]") /\
+  sep_bracket (s2l "\a[3]") = Some (Some 3, s2l "\a") /\
   sep_bracket (s2l "\a [3]") = Some (Some 3, s2l "\a ") /\
   sep_bracket (s2l "\a[3] ") = Some (None, s2l "\a[3] ") /\
   sep_bracket (s2l "a]") = Some (None, s2l "a]") /\
@@ -491,7 +446,8 @@ Print Assumptions dec_no_special.
 Print Assumptions dec_no_leading_zero.
 Print Assumptions bitname_bracket_full.
 Print Assumptions bitname_inverse_bracket.
-Print Assumptions bitname_inverse_bracket_escaped.
+Print Assumptions sep_bracket_total.
+Print Assumptions net_bit_total.
 Print Assumptions bitname_underscore_full.
 Print Assumptions bitname_inverse_underscore.
 Print Assumptions bitname_underscore_amp.
